@@ -205,6 +205,11 @@ fn expand_whole_cluster<C: ClusterUpdater + ?Sized>(
     if !is_valid_cluster_edge_op(op) {
         // Add all legs
         debug_assert_eq!(boundaries.at(p), (&None, &None));
+        if op.get_vars().is_empty() {
+            // An op which covers no variables has no legs to expand along: it is a cluster by
+            // itself. Without this it is never assigned and the search for unmapped ops never ends.
+            set_boundaries(p, cluster_num, boundaries);
+        }
         let inputs_legs = (0..op.get_vars().len()).map(|v| (v, OpSide::Inputs));
         let outputs_legs = (0..op.get_vars().len()).map(|v| (v, OpSide::Outputs));
         let all_legs = inputs_legs.chain(outputs_legs);
